@@ -291,15 +291,22 @@ func (c *Ctx) cloneSkeleton() {
 					rs = r
 				}
 			}
-			okRec := rs != nil && c.canon(info, rs.X, o) == childKey+".br" && rs.Value != nil && len(recurCall.Args) == 4 &&
-				identObj(info, recurCall.Args[0]) == pCopyTree && isResOf(recurCall.Args[1], copyNodeCall) &&
-				c.canon(info, recurCall.Args[2], o) == childKey && identObj(info, recurCall.Args[3]) == identObj(info, rs.Value)
+			_ = rs
+			elemKey := ""
+			okRec := false
+			if len(recurCall.Args) == 4 {
+				cont, isElem := c.loopElement(info, rec.Decl.Body, recurCall, recurCall.Args[3], o)
+				elemKey = c.canon(info, recurCall.Args[3], o)
+				okRec = isElem && cont == childKey+".br" &&
+					identObj(info, recurCall.Args[0]) == pCopyTree && isResOf(recurCall.Args[1], copyNodeCall) &&
+					c.canon(info, recurCall.Args[2], o) == childKey
+			}
 			c.Check(okRec, "SKELETON", name+"/recursion", recurCall.Pos(), "recurses over the child's branches in order with (copy, copied child, child, branch)",
 				"the recursion must range over the child's own branches and pass (copytree, copied child, child, that branch); got "+c.src(recurCall)).Clause = clause
 			if okRec {
 				conds, okc := c.pathConds(info, rec.Decl.Body, recurCall, true)
 				code := c.condsToBexpr(info, conds, o)
-				spec := bCmp(identObj(info, rs.Value).Name(), token.NEQ, pEdge.Name())
+				spec := bCmp(elemKey, token.NEQ, pEdge.Name())
 				eq, wit, _, err := gfEquiv(code, spec)
 				if !okc || err != nil {
 					c.Undecided("SKELETON", name+"/skip-parent-branch", recurCall.Pos(), "guard shape not understood")
@@ -375,9 +382,15 @@ func (c *Ctx) cloneSkeleton() {
 						rs = r
 					}
 				}
-				good := rs != nil && c.canon(info, rs.X, o) == srcRootKey+".br" && rs.Value != nil && len(call.Args) == 4 &&
-					identObj(info, call.Args[0]) == newTreeObj && identObj(info, call.Args[1]) == rootObj &&
-					c.canon(info, call.Args[2], o) == srcRootKey && identObj(info, call.Args[3]) == identObj(info, rs.Value)
+				_ = rs
+				good, elemKey := false, ""
+				if len(call.Args) == 4 {
+					cont, isElem := c.loopElement(info, fi.Decl.Body, call, call.Args[3], o)
+					elemKey = c.canon(info, call.Args[3], o)
+					good = isElem && cont == srcRootKey+".br" &&
+						identObj(info, call.Args[0]) == newTreeObj && identObj(info, call.Args[1]) == rootObj &&
+						c.canon(info, call.Args[2], o) == srcRootKey
+				}
 				c.Check(good, "SKELETON", name+"/descend", call.Pos(), "descends over the branches of the copied root in order with (copy, root copy, source root, branch)",
 					"the descent must range over the branches of the node whose copy is the new root and pass (copy, root copy, that node, branch); got "+c.src(call)).Clause = clause
 				if good {
@@ -387,7 +400,7 @@ func (c *Ctx) cloneSkeleton() {
 					if fi == cl {
 						spec = bConst(true)
 					} else {
-						spec = bCmp(identObj(info, rs.Value).Name()+".left", token.EQL, srcRootKey)
+						spec = bCmp(elemKey+".left", token.EQL, srcRootKey)
 					}
 					eq, wit, _, err := gfEquiv(code, spec)
 					if !okc || err != nil {
@@ -493,6 +506,20 @@ func (c *Ctx) insertIdenticalForms() {
 	})
 	if len(ifs) == 1 {
 		code := c.toBexpr(info, ifs[0].Cond, env.o)
+		// which branch is the shortcut? the one creating fewer nodes (the general case inserts an
+		// internal node as well as the tip); with the branches swapped the guard is the negation
+		countNew := func(n ast.Node) int {
+			k := 0
+			for _, call := range callsIn(n, true) {
+				if isRepoFunc(calleeOf(info, call), "tree", "Tree", "NewNode") {
+					k++
+				}
+			}
+			return k
+		}
+		if countNew(ifs[0].Else) < countNew(ifs[0].Body) {
+			code = bNot(code)
+		}
 		var lenTerm string
 		terms, atoms := map[string]bool{}, map[string]bool{}
 		code.collect(terms, atoms)
